@@ -149,6 +149,20 @@ def rv_cases(tier):
                                 yield kinds, dtype_name, B, bs_mode, meta, outkind, False
                     if narr >= 2:
                         yield kinds, dtype_name, B, 'absent', True, 'scalar', True
+    # arities 4..6: a deterministic pseudo-random sample of kind words (the proof tier has arity 4 exhaustively in the thorough tier and a spread of
+    # arity-4 / arity-5 words in the quick tier; this is the bounded complement for larger arities)
+    import random as _random
+    rnd = _random.Random(1804)
+    for k, nwords in ((4, 40), (5, 30), (6, 20)):
+        for _ in range(nwords if tier == 'quick' else 4 * nwords):
+            kinds = ''.join(rnd.choice(KINDS) for _ in range(k))
+            narr = sum(1 for c in kinds if c in 'AM')
+            for dtype_name in ('none', 'false'):
+                for B in (1, 3):
+                    for meta in (True, False):
+                        yield kinds, dtype_name, B, rnd.choice(('absent', 'equal', 'off')), meta, rnd.choice(('scalar', 'vector')), False
+            if narr >= 2:
+                yield kinds, 'none', 3, 'absent', True, 'scalar', True
     # the mask object bound by vectorize: list / tuple, and REUSE of one vectorised callable with another pattern of scalars / arrays
     n = 0
     for k in range(0, 4):
@@ -183,7 +197,7 @@ def run_rv(tier, first_failure_only=True):
             failures.append(f)
             if first_failure_only:
                 break
-    return dict(name='vectorize-grid', bound='arity<=3 over kinds %s, dtype None/float/False, batch 1..3, batch_size absent/equal/off-by-one, meta yes/no; '
+    return dict(name='vectorize-grid', bound='arity<=3 exhaustively (and 90 / 360 sampled kind words of arity 4-6) over kinds %s, dtype None/float/False, batch 1..3, batch_size absent/equal/off-by-one, meta yes/no; '
                 'mask as list/tuple; two consecutive calls of one vectorised callable over all pairs of kind words with the same declared constants' % KINDS,
                 rule='non-trivial = batch > 1 with at least one array and one constant/scalar input', cases=cases, nontrivial=nontrivial, failures=failures)
 
